@@ -400,7 +400,12 @@ class ConnectionState:
             func: _CommandFunc = getattr(self, func_name)
         except AttributeError:
             return ResponseNo(cmd.tag, cmd.command + b': Not Implemented')
-        response, selected = await func(cmd)
+        try:
+            response, selected = await func(cmd)
+        except Exception:
+            if self._selected is not None:
+                self._selected.abandon()
+            raise
         if selected is not None:
             self._selected, untagged = selected.fork(cmd)
             response.add_untagged(*untagged)
